@@ -841,7 +841,12 @@ fn main() {
 			if let Some(s) = dec.short_channel_id {
 				let pos = c.path.hops.iter().position(|h| h.short_channel_id == s);
 				if pos != Some(k) && pos != Some(k + 1) { rec.oracle_fail(format!("failure from hop {} of {} (code {:#x}) blamed on channel index {:?}", k, n, code, pos)); }
+			} else if k + 1 < n && code & 0x8000 == 0 {
+				// a failure a NON-final hop produced (any code but BADONION ones, which name no channel of the failing node itself) must
+				// name that hop's channel: "nothing to learn" is reserved to failures authenticated by the final hop
+				rec.oracle_fail(format!("failure from non-final hop {} of {} (code {:#x}) names no channel at all: the sender learns nothing about the failing hop", k, n, code));
 			}
+			if k + 1 < n && dec.payment_failed_permanently { rec.oracle_fail(format!("failure from non-final hop {} of {} (code {:#x}) fails the payment permanently", k, n, code)); }
 			holds.truncate(20);
 			if !big_data && dec.hold_times != holds { rec.oracle_fail(format!("failure from hop {} of {}: hold times reported {:?}, hops set {:?}", k, n, dec.hold_times, holds)); }
 			if with_attr {
